@@ -47,6 +47,22 @@ inline int draw_small(int n) {
 
 inline uint64_t seq() { return usim_seq(); }
 
+// debugging aid for replays: --param trace=1 prints harness events (never used by oracles)
+inline bool tracing() {
+  static int on = -1;
+  if (on < 0) on = usim_param_int("trace", 0) ? 1 : 0;
+  return on == 1;
+}
+#define KIT_TRACE(...)                                                         \
+  do {                                                                         \
+    if (kit::tracing()) {                                                      \
+      usim::np_scope np__;                                                     \
+      fprintf(stderr, "[T%d step %llu] ", usim_here(), (unsigned long long)usim_step()); \
+      fprintf(stderr, __VA_ARGS__);                                            \
+      fputc('\n', stderr);                                                     \
+    }                                                                          \
+  } while (0)
+
 // An object living alone in a poisoned arena block, so that any touch after
 // destroy() lands on freed shadow memory.
 template <class T>
